@@ -166,7 +166,7 @@ def slot_of_output(outdir):
     return offs
 
 
-def impl_boot(tmp, v, c, cfg_text, via):
+def impl_boot(tmp, v, c, cfg_text, via, soc=None):
     """image boot for an envelope of class (v, c): the offset of the slot it lands in, or the exception"""
     d = tempfile.mkdtemp(prefix="boot-", dir=tmp)
     try:
@@ -180,7 +180,7 @@ def impl_boot(tmp, v, c, cfg_text, via):
         os.makedirs(outdir)
         if via == "lib":
             from suit_generator.cmd_image import ImageCreator
-            ImageCreator.create_files_for_boot([envp], outdir, STORAGE_ADDRESS, cfgp)
+            ImageCreator.create_files_for_boot([envp], outdir, STORAGE_ADDRESS, cfgp, **({"soc": soc} if soc else {}))
         else:
             args = [core.PY, "-m", "suit_generator.cli", "image", "boot", "--input-file", envp, "--storage-output-directory", outdir]
             if cfgp:
@@ -486,6 +486,30 @@ def boot_stream(ck, tmp):
         if r != ("ok", want):
             fails.append({"input": {"op": "boot", "vendor": v, "class": c, "config": text, "via": via}, "observed": str(r),
                           "expected": f"stored at offset {want[0]} (role {CONFIGURABLE[m]})"})
+    # the other SoC through the same entry point (the soc argument of the library call): configured and default classes
+    import c07
+    lay = c07.ABI["layouts"]["nrf9280"]
+    for i in range(3 if not ck.deep else 10):
+        struct, text = gen_config(ck.rng)
+        exp_all = expected_roles(1, struct, [(v, c) for _, v, c in struct])
+        if exp_all is None or not struct:
+            continue
+        m, v, c = struct[ck.rng.randrange(len(struct))]
+        r = impl_boot(tmp, v, c, text, "lib", soc="nrf9280")
+        ck.count("boot", ("nrf9280", text, v, c), sample={"soc": "nrf9280", "config": text[-200:], "envelope": [v[:30], c[:30]]})
+        if exp_all == "GeneratorError":
+            if r != ("exn", "GeneratorError"):
+                fails.append({"input": {"op": "boot", "soc": "nrf9280", "vendor": v, "class": c, "config": text, "via": "lib"}, "observed": str(r),
+                              "expected": "GeneratorError: one pair given to two roles"})
+        elif r != ("ok", [lay[CONFIGURABLE[m]][0]]):
+            fails.append({"input": {"op": "boot", "soc": "nrf9280", "vendor": v, "class": c, "config": text, "via": "lib"}, "observed": str(r),
+                          "expected": f"stored at offset {lay[CONFIGURABLE[m]][0]} (role {CONFIGURABLE[m]})"})
+    for (v, c), role in list(DEFAULTS[1].items())[:2 if not ck.deep else 8]:
+        r = impl_boot(tmp, v, c, None, "lib", soc="nrf9280")
+        ck.count("boot", ("nrf9280", None, v, c))
+        if r != ("ok", [lay[role][0]]):
+            fails.append({"input": {"op": "boot", "soc": "nrf9280", "vendor": v, "class": c, "config": None, "via": "lib"}, "observed": str(r),
+                          "expected": f"stored at offset {lay[role][0]} (role {role})"})
     # default assignment without a configuration file
     for (v, c), role in list(DEFAULTS[0].items())[:3 if not ck.deep else 8]:
         r = impl_boot(tmp, v, c, None, "lib")
